@@ -20,6 +20,8 @@ import (
 	"context"
 	"fmt"
 
+	"github.com/cloudwego/eino/callbacks"
+	"github.com/cloudwego/eino/components"
 	"github.com/cloudwego/eino/components/retriever"
 	"github.com/cloudwego/eino/schema"
 )
@@ -87,7 +89,7 @@ type parentRetriever struct {
 }
 
 func (p *parentRetriever) Retrieve(ctx context.Context, query string, opts ...retriever.Option) ([]*schema.Document, error) {
-	subDocs, err := p.retriever.Retrieve(ctx, query, opts...)
+	subDocs, err := p.retriever.Retrieve(ctxWithInnerRunInfo(ctx, components.ComponentOfRetriever, p.retriever), query, opts...)
 	if err != nil {
 		return nil, err
 	}
@@ -100,6 +102,18 @@ func (p *parentRetriever) Retrieve(ctx context.Context, query string, opts ...re
 		}
 	}
 	return p.origDocGetter(ctx, ids)
+}
+
+// ctxWithInnerRunInfo switches to a run info of the wrapped component: it is a unit of its own, and one that fires its own
+// callbacks must not report under the run info of the node this flow component is.
+func ctxWithInnerRunInfo(ctx context.Context, component components.Component, inner any) context.Context {
+	runInfo := &callbacks.RunInfo{Component: component}
+	if typ, ok := components.GetType(inner); ok {
+		runInfo.Type = typ
+	}
+	runInfo.Name = runInfo.Type + string(runInfo.Component)
+
+	return callbacks.ReuseHandlers(ctx, runInfo)
 }
 
 func inList(elem string, list []string) bool {
